@@ -227,6 +227,13 @@ struct PeerInfo {
 
 fn peer_info(rec: &RunRecord, peer: u32) -> PeerInfo {
     let mut info = PeerInfo { closed_read: None, closed_write: None, write_failed: false };
+    // A remote whose id is taken over by another attachment while it is still attached is closed by the runtime
+    // (DuplicateRegistration) at a moment it does not choose: nothing is demanded for it.
+    if rec.scenario.peers.iter().any(|p| p.reattach_of == Some(peer) && p.reattach_immediately) {
+        info.closed_read = Some(0);
+        info.closed_write = Some(0);
+        info.write_failed = true;
+    }
     for s in rec.hist.sent.iter().filter(|s| s.peer == peer && s.epoch == 0) {
         match s.op {
             Op::CloseRead => info.closed_read = info.closed_read.or(Some(s.start)),
@@ -279,12 +286,30 @@ fn sessions<'a>(frames: &[&'a Frame]) -> (Vec<Session<'a>>, Vec<&'a Frame>) {
     (out, outside)
 }
 
+/// The peers whose requests the runtime attributes to `peer`: itself and, when it attached under the id of a remote
+/// that was still attached, that remote (whose channel to the agent stays open and is read under the same id).
+fn aliases(rec: &RunRecord, peer: u32) -> Vec<u32> {
+    let mut out = vec![peer];
+    let mut cur = peer;
+    while let Some(p) = rec.scenario.peers.iter().find(|p| p.id == cur && p.reattach_immediately) {
+        match p.reattach_of {
+            Some(of) if !out.contains(&of) => {
+                out.push(of);
+                cur = of;
+            }
+            _ => break,
+        }
+    }
+    out
+}
+
 fn requests<'a>(rec: &'a RunRecord, peer: u32, lane: &str) -> Vec<&'a Sent> {
+    let group = aliases(rec, peer);
     rec.hist
         .sent
         .iter()
         .filter(|s| {
-            s.peer == peer
+            group.contains(&s.peer)
                 && s.epoch == 0
                 && match &s.op {
                     Op::Link { lane: l } | Op::Sync { lane: l } | Op::Unlink { lane: l } => l == lane,
@@ -588,7 +613,8 @@ pub fn check(rec: &RunRecord) -> Vec<Violation> {
             }
             // (A remote the runtime itself gave up on - no link for the prune delay, failed write - is no longer answered.)
             let given_up = rec.hist.disconnects.iter().any(|(_, p, why)| p == peer && (why.contains("RemoteTimedOut") || why.contains("ChannelClosed")));
-            if clean_end && q.is_some() && info.closed_read.is_none() && info.closed_write.is_none() && !info.write_failed && !given_up {
+            let aliased = aliases(rec, *peer).len() > 1;
+            if clean_end && q.is_some() && info.closed_read.is_none() && info.closed_write.is_none() && !info.write_failed && !given_up && !aliased {
                 let before_q = frames.iter().filter(|f| f.step <= q.unwrap()).count();
                 let reqs_done = reqs.iter().filter(|s| s.ok && s.end <= q.unwrap()).count();
                 if before_q != reqs_done {
@@ -1082,7 +1108,10 @@ pub fn check(rec: &RunRecord) -> Vec<Violation> {
                 if links > 0 && linked == 0 {
                     out.push(Violation::new("C04", "C04.live", "link_never_answered", format!("peer {} lane {lane}: {links} link / sync requests were written completely but no linked frame ever arrived (runtime's view of the remote: {:?})", peer.id, dropped.map(|d| d.2.clone()))));
                     out.push(Violation::new("C03", "C03.session", "never_linked", format!("peer {} lane {lane}: {links} link / sync requests were written completely but no linked frame ever arrived", peer.id)));
-                } else if syncs > 0 && synced == 0 && !peer.ops.iter().any(|o| matches!(o, Op::Unlink { lane: l } if l == lane)) {
+                } else if syncs > 0
+                    && synced == 0
+                    && !aliases(rec, peer.id).iter().any(|a| sc.peers.iter().any(|p| p.id == *a && p.ops.iter().any(|o| matches!(o, Op::Unlink { lane: l } if l == lane))))
+                {
                     out.push(Violation::new("C03", "C03.session", "never_synced", format!("peer {} lane {lane}: {syncs} sync requests were written completely but no synced frame ever arrived", peer.id)));
                 }
             }
@@ -1229,10 +1258,13 @@ pub fn check(rec: &RunRecord) -> Vec<Violation> {
     // ---------------- C14 agent-sent commands.
     if let (Some(qs), true) = (q, clean_end) {
         let mut sent: BTreeMap<i32, Vec<(i32, bool)>> = BTreeMap::new();
+        let mut sent_steps: HashMap<(i32, i32), u64> = HashMap::new();
+        let last_target_close: Option<u64> = rec.hist.target_closed.iter().map(|(s, _)| *s).max();
         if let Some(t) = rec.truth.first() {
             for (s, e) in t.iter() {
                 if let TruthEv::Sent { target, overwrite, value } = e {
                     if *s <= qs {
+                        sent_steps.insert((*target, *value), *s);
                         sent.entry(*target).or_default().push((*value, *overwrite));
                     }
                 }
@@ -1283,6 +1315,16 @@ pub fn check(rec: &RunRecord) -> Vec<Violation> {
             }
             for (i, (v, overwrite)) in s.iter().enumerate() {
                 if !seen.contains(v) {
+                    if let Some(closed) = last_target_close {
+                        // A command handed over before the target closed its channel may have gone down with it; one
+                        // sent afterwards was never attempted on a live channel and may not be dropped.
+                        let sent_at = sent_steps.get(&(*target, *v)).copied().unwrap_or(0);
+                        if sent_at > closed && !*overwrite {
+                            out.push(Violation::new("C14", "C14.sent_lost", "after_target_closed", format!("target {target}: non-overwritable command {v}, sent at step {sent_at} after the target had closed its channel at step {closed}, was never forwarded (sent {:?}, received {:?})", s, g)));
+                            break;
+                        }
+                        continue;
+                    }
                     if !*overwrite {
                         out.push(Violation::new("C14", "C14.sent_lost", "queued", format!("target {target}: non-overwritable command {v} was never forwarded (sent {:?}, received {:?})", s, g)));
                         break;
